@@ -174,6 +174,57 @@ def lambda_call(pv: int, host_p: bool, hv: int, re0: bool, f0: bool, f1: bool) -
     hlib.done()
 
 
+class Body0(Op):
+    """body of a lambda that binds NOTHING (no parameters / called with no arguments): assigns a local and a name that
+    also exists in the host mapping"""
+
+    def __init__(self, fail):
+        self.fail = fail
+
+    def eval(self, state):
+        Op.eval(self, state)
+        state.names['loc'] = 1
+        state.names['p'] = 2
+        if self.fail:
+            raise StubRaise()
+        return state.names['p']
+
+
+def lambda_call_nothing_bound(host_p: bool, hv: int, fail: bool, declared: int, nested: bool) -> None:
+    """
+    pre: 0 <= declared <= 1
+    post: True
+    """
+    # a call that binds no parameter (none declared, or one declared and none passed) still runs in a scope of its own
+    hlib.enter(locals())
+    declared = hlib.concrete(declared, 0, 1)
+    body = Body0(True if fail else False)
+    node = LambdaOp(args=[NameOp('q')][:declared], expr=body)
+    host = {'p': hv} if host_p else {}
+    st = mkstate(0, 10**6, host=host, functions={'len': len})
+    f = node.eval(st)
+    before_host = dict(host)
+    before_depth = len(st.names.scopes)
+    outer = {'p': 50, 'loc': 60}
+    raised = None
+    try:
+        if nested:
+            with st.names.make_scope(outer):          # as if called from inside another lambda call
+                f()
+        else:
+            f()
+    except StubRaise as e:
+        raised = e
+    except TypeError:
+        hlib.done()          # (refusing a call with too few arguments is fine)
+        return
+    assert (raised is not None) == body.fail
+    assert len(st.names.scopes) == before_depth, "lambda scope leaked after a call that binds no parameter"
+    assert host == before_host, "assignment inside a lambda call that binds no parameter altered the host's names"
+    assert outer == {'p': 50, 'loc': 60}, "assignment inside a lambda call that binds no parameter altered the calling lambda's bindings"
+    hlib.done()
+
+
 TEMPLATES = [
     "len(l)",
     "f = len => len\nf(pv)",
